@@ -1,1 +1,11 @@
-//! Agent simulation engine (agentsim / rawlane): see DESIGN.md §2.2.
+//! Agent simulation engine (agentsim / rawlane): the real `AgentRouteTask` (agent model + agent
+//! runtime) inside a harness-owned executor. Remotes, store, link-request server and clock are harness
+//! objects driven by a generated op list. See DESIGN.md §2.2-2.3.
+pub mod agent;
+pub mod exec;
+pub mod ops;
+pub mod remote;
+
+pub use exec::*;
+pub use remote::*;
+pub use ops::*;
